@@ -3,6 +3,6 @@ EXTENDS PropSlot, Json
 VARIABLE hist
 GInit == TInit /\ hist = <<pret>>
 GNext == TNext /\ hist' = Append(hist, pret')
-GSpec == GInit /\ [][GNext]_<<slot, nops, pret, hist>>
+GSpec == GInit /\ [][GNext]_<<slot, nops, pret, held, hist>>
 Emit == (nops = MaxOps) => PrintT(<<"REPLAY", ToJson(hist)>>)
 =============================================================================
